@@ -16,7 +16,7 @@ from mc.common import reset_frame_state, quiet
 ID = 'C10'
 LEVEL = 'exploration'
 PRELOAD = ['frame.geometry.geometry', 'frame.netlist.netlist', 'frame.die.die', 'frame.allocation.allocation', 'ruamel.yaml', 'mc.common', 'tools.glbfloor.optimization']
-RULE = ("dies {4x4, 6x4, 4x4 with a blockage, 4x4 with a fixed module} x pre-refinement {split_refinable_regions(2,4) / (2,16) / (1.5,9), initial_grid(2,2) / (4,4) on empty dies} x netlists of "
+RULE = ("dies {4x4, 6x4, 4x4 with a blockage, 4x4 with a fixed module} x pre-refinement {split_refinable_regions(2,4) / (2,16) / (1.5,9), initial_grid(2,2) / (4,4) / (2,4) / (3,2) on empty dies} x netlists of "
         "2-3 modules from {soft A, soft B, soft C (overlapping the fixed module), hard single rectangle, hard L-shape, flippable hard L-shape, flippable shapes almost aligned in x or y} (+ the fixed module of the die) with a chain of 2-pin nets or one hyperedge x "
         "alpha in {0.1, 0.5} x threshold in {0.7, 0.95} x max_iter in {1, 2} (quick: full product minus one corner); thorough: alpha {0.1,0.5,0.9} x threshold {0.5,0.7,0.95} x max_iter {1,2,3}. "
         "Non-trivial = runs that returned an allocation with at least one cell shared by two modules or partially occupied; distinct by construction.")
@@ -47,7 +47,7 @@ MODS = {
 NETLISTS = [('softA', 'softB'), ('softA', 'hard1'), ('softA', 'hardL'), ('softB', 'flipL'), ('softA', 'softB', 'hard1'),
             ('softA', 'softB', 'hardL'), ('softA', 'softB', 'flipL'), ('softA', 'hard1', 'hardL'), ('softB', 'hard1', 'flipL'),
             ('softC', 'softB'), ('softC', 'hard1'), ('softA', 'flipIy'), ('softB', 'flipIx'), ('softA', 'softB', 'flipIy')]
-PRES = [['split', 2.0, 4], ['split', 2.0, 16], ['grid', 2, 2], ['grid', 4, 4], ['split', 1.5, 9]]
+PRES = [['split', 2.0, 4], ['split', 2.0, 16], ['grid', 2, 2], ['grid', 4, 4], ['split', 1.5, 9], ['grid', 2, 4], ['grid', 3, 2]]
 ALPHAS = [0.1, 0.5]
 THRS = [0.7, 0.95]
 ITERS = [1, 2]
